@@ -350,17 +350,36 @@ def parsePolicy (v : PolicyVal) : Except PErr Policy :=
     else .error (.unexpected f.name)
   | some fs => .error (.count fs.length)
 
+/-! ## What the documentation allows as `policy:` (specification side) -/
+
+/-- The four parameterless policies and what they denote. -/
+def PlainPolicy (name : Str) (p : Policy) : Prop :=
+  (name = sRandom ∧ p = .random) ∨ (name = sMinAvg10 ∧ p = .minAvg10) ∨
+  (name = sMin ∧ p = .minLast) ∨ (name = sMinMovingAvg ∧ p = .minMovingAvg)
+
+/-- A documented policy value: exactly one function, not negated; `random` / `min` / `min_avg10` /
+`min_moving_avg` without arguments, or `fixed(<decimal int64>)` with exactly one key-less argument. -/
+def PolicyValid (v : PolicyVal) (p : Policy) : Prop :=
+  ∃ f, toFuncList v = some [f] ∧ f.neg = false ∧
+    ((f.params = [] ∧ PlainPolicy f.name p) ∨
+     (f.name = sFixed ∧ ∃ val i, f.params = [⟨[], val⟩] ∧ atoi val = some i ∧ p = .fixed i))
+
+/-- The undocumented forms the code accepts as well: a parameterless policy written with `!`
+and/or with arguments (`!min(7)`, `random(k: v)`): the decoration is ignored. -/
+def LenientPolicy (v : PolicyVal) (p : Policy) : Prop :=
+  ∃ f, toFuncList v = some [f] ∧ (f.neg = true ∨ f.params ≠ []) ∧ PlainPolicy f.name p
+
 /-! ## Group construction (control_plane.go) and the fixed(i) selection -/
 
 inductive GErr where
   | policy (e : PErr)
   | filter (e : Err)
-deriving Repr
+deriving DecidableEq, Repr
 
 structure Group where
   policy : Policy
   members : List (Nat × Int)
-deriving Repr
+deriving DecidableEq, Repr
 
 /-- The loop body of `NewControlPlane` over `groups`: the policy is parsed first, then the nodes
 are filtered; the group receives the dialers and their annotations as returned. -/
